@@ -357,7 +357,7 @@ def proxy_acceptance(ctx, r, parsed, declared, w, case):
     if len(methods) > 7:
         methods = r.sample(methods, 7)
     for mname in methods:
-        for given in [None] + names + ['org.verif.c15.NotAnInterface']:
+        for given in [None] + names + ['org.verif.c15.NotAnInterface', None]:      # (unqualified again after qualified calls)
             cands = [n for n in names if (given is None or n == given) and mname in decl[n]]
             for delta in (0, 1, -1):
                 if cands:
